@@ -6,8 +6,10 @@ pub mod c01;
 pub mod c02;
 pub mod c03;
 pub mod c05;
+pub mod c09;
 pub mod c12;
 pub mod c13;
+pub mod c14;
 pub mod c19;
 pub mod mergefam;
 
@@ -15,8 +17,10 @@ pub fn all() -> Vec<Box<dyn Property>> {
     vec![Box::new(c01::prop()), Box::new(c02::prop()),
         Box::new(c03::prop()),
         Box::new(c05::prop()),
+        Box::new(c09::prop()),
         Box::new(c12::prop()),
         Box::new(c13::prop()),
+        Box::new(c14::prop()),
         Box::new(c19::prop()),
     ]
 }
